@@ -366,6 +366,14 @@ type Query { me: User @auth(role: USER) }
 		"gqlgen.yml": "schema:\n  - \"graph/*.graphqls\"\nexec:\n  layout: follow-schema\n  dir: graph\n  package: graph\nfederation:\n  filename: graph/federation.go\n  package: graph\n  version: 2\n" +
 			"model:\n  filename: graph/model/models_gen.go\n  package: model\nskip_mod_tidy: true\nskip_validation: true\n",
 	}})
+	// a Go type alias used behind a pointer in a bound model (the ent `*Cursor` shape), next to other
+	// references to the same GraphQL type through the real name and through resolvers
+	ps = append(ps, &project{Name: "aliasp", Kind: "autobind-pointer-to-alias", Dirs: []string{"graph", "graph/model"}, Files: map[string]string{
+		"schema.graphql":     "type Tag { name: String! }\ntype Post { id: ID! tag: Tag main: Tag tags: [Tag] }\ntype Author { id: ID! fav: Tag }\ntype Query { post: Post tag(n: Int): Tag author: Author }\n",
+		"graph/model/tag.go": "package model\n\ntype TagRecord struct {\n\tName string\n}\n\ntype Tag = TagRecord\n\ntype Post struct {\n\tID   string\n\tTag  *Tag\n\tMain *TagRecord\n\tTags []*Tag\n}\n\ntype Author struct {\n\tID  string\n\tFav *Tag\n}\n",
+		"gqlgen.yml": "schema:\n  - \"*.graphql\"\nexec:\n  filename: graph/generated.go\n  package: graph\n" +
+			"model:\n  filename: graph/model/models_gen.go\n  package: model\nautobind:\n  - \"verif/work/gen/c18/aliasp/graph/model\"\nskip_mod_tidy: true\nskip_validation: true\n",
+	}})
 	// two autobind packages declaring the same Go type: the first listed wins, always
 	ps = append(ps, &project{Name: "autob2", Kind: "autobind-two-packages", Dirs: []string{"graph"}, Files: map[string]string{
 		"schema.graphql":    "type User { id: ID! name: String! }\ntype Team { id: ID! lead: User }\ntype Query { me: User team: Team }\n",
